@@ -121,8 +121,13 @@ Emit(rec) == IF EdgeFile = "" THEN TRUE ELSE CSVWrite("%1$s", <<ToJson(rec)>>, E
 RECURSIVE RunAll(_, _)
 RunAll(s, cs) == IF cs = <<>> THEN s ELSE RunAll(Apply(s, Head(cs)).st, Tail(cs))
 
-Init == st = (IF Kind \in {"basepath", "sub"} THEN RunAll(InitSt, BpBase) ELSE InitSt)
-        /\ hist = (IF Kind \in {"basepath", "sub"} THEN BpBase ELSE <<>>) /\ w = "none" /\ wh = <<>> /\ last = [call |-> C0, res |-> R0] /\ wx = X0
+\* C11: the parent may have its own working directory and umask when the view is made (neither may change, then or later)
+SubBases == {BpBase,
+             BpBase \o <<[C0 EXCEPT !.op = "chdir", !.p = AbsP(<<"w", "B">>)]>>,
+             BpBase \o <<[C0 EXCEPT !.op = "chdir", !.p = AbsP(<<"w">>)], [C0 EXCEPT !.op = "setumask", !.perm = 63]>>}
+Init == /\ hist \in (IF Kind = "sub" THEN SubBases ELSE IF Kind = "basepath" THEN {BpBase} ELSE {<<>>})
+        /\ st = RunAll(InitSt, hist)
+        /\ w = "none" /\ wh = <<>> /\ last = [call |-> C0, res |-> R0] /\ wx = X0
 
 Build ==
     /\ w = "none" /\ Len(hist) < BuildLen /\ Kind \notin {"basepath", "sub"}
@@ -150,6 +155,10 @@ Call ==
                                                     ELSE IF Kind = "sub" THEN ToBaseD(wx.dir, wx.vcwd, c.p) ELSE c.p, FALSE) IN
           \* removing or moving the working directory (or an ancestor of it) is outside the universe
           /\ ~(c.op \in {"remove", "removeall", "rename"} /\ rp.err = "ok" /\ rp.id # Root /\ rp.id \in Range(st.cwd))
+          \* C11 speaks of relative paths only "once the view's working directory has been set through the view":
+          \* when the parent had a working directory of its own, a relative path needs a Chdir through the view first
+          /\ ((Kind = "sub" /\ st.cwdn # <<>> /\ ((~c.p.abs /\ c.op \notin {"getwd", "setumask"}) \/ (c.op \in {"rename", "link"} /\ ~c.q.abs)))
+                 => (last.call.op = "chdir" /\ last.res.err = "ok" /\ wh # <<>>))
           \* under a fault plan only calls that consult the planned primitive are of interest
           \* (opening a handle is allowed too: the File primitives can only be consulted on one)
           /\ ((w # "sub" /\ wx.plan.fn # "none") => (c.op = "open" \/ \E i \in DOMAIN o.cons : o.cons[i] = wx.plan.fn))
